@@ -8,7 +8,8 @@ From PV Require Import Base.Bytes Base.Sexp AVM.Syntax AVM.Machine Src.Expr Src.
   Proofs.SlotComposeAssign
   CallX.Denote CallX.GraphSem CallX.LinearSem CallX.LowerCorrect CallX.EndToEndGlue CallX.EndToEnd
   CallX.SlotCompose CallX.SlotComposeEnd CallX.SlotComposeFinal
-  Proofs.CallComposeLink Proofs.CallComposeMain Proofs.CallComposeLayout.
+  Proofs.CallComposeLink Proofs.CallComposeMain Proofs.CallComposeLayout
+  Proofs.CallComposeSpill Proofs.CallComposeSpillPass.
 Import ListNotations.
 Local Open Scope string_scope.
 Local Open Scope list_scope.
@@ -137,6 +138,102 @@ Proof.
   destruct (IH Hin) as (a & Ha & Ra). exists a. split; [right; exact Ha|exact Ra].
 Qed.
 
+(* the component list after a pass that keeps the routines' identities and turns correct units (for the
+   identity transformer) into correct units for the transformer W *)
+Definition unit_lift (o : copts) (cx : ctx) (look : N -> N) (msel : list (string * bytes)) (subs : list routine)
+           (W : option routine -> (N -> list value -> mstate -> callres) -> (N -> list value -> mstate -> callres))
+           (fr fr2 : flat_routine) : Prop :=
+  fr_sub fr2 = fr_sub fr /\
+  forall ast0, unit_correct o cx look msel subs idW (fr_sub fr) ast0 (fr_ops fr) ->
+               unit_correct o cx look msel subs W (fr_sub fr) ast0 (fr_ops fr2).
+
+Lemma Forall2_in_r {A B} (R : A -> B -> Prop) l1 l2 b : Forall2 R l1 l2 -> In b l2 -> exists a, In a l1 /\ R a b.
+Proof. exact (Forall2_in_l R l1 l2 b). Qed.
+
+Lemma Forall2_head {A B} (R : A -> B -> Prop) x t l2 : Forall2 R (x :: t) l2 -> exists y u, l2 = y :: u /\ R x y /\ Forall2 R t u.
+Proof. intros H. inversion H; subst. eauto. Qed.
+
+Lemma program_core o p crs crs' locals asg frs frs2 W cx msel :
+  compile_rec (S (List.length (p_subs p))) o p None (p_main p) [] = COk crs ->
+  assign_slots p crs = COk (crs', locals, asg) ->
+  fold_right flat_step (COk []) crs' = COk frs ->
+  head_loop (root_ast (p_main p)) = false ->
+  (forall r, In r (p_subs p) -> r_deferred r = None) ->
+  requested_valid p (all_slots crs) ->
+  Forall2 (unit_lift o cx (look_of asg) msel (fs_subs frs2) W) frs frs2 ->
+  let L := flatten_subroutines frs2 in
+  NoDup (labels_of L) ->
+  forallb (fun fr => linkable (fr_ops fr)) frs2 = true ->
+  (forall n, realizes (lenv cx (look_of asg) msel (fs_subs frs2)) L (fs_res frs2)
+                      (call_k o cx (look_of asg) msel (fs_subs frs2) W n)) /\
+  (forall n fuel stk st h,
+     halt_of (denote_k o cx (look_of asg) msel (fs_subs frs2) W n None fuel (root_ast (p_main p)) stk st) = Some h ->
+     claimed h ->
+     pstar (lenv cx (look_of asg) msel (fs_subs frs2)) L (PAt [] 0 stk st) (emb 0 [] h)).
+Proof.
+  intros HR HA HF HL HD HV HU L ND LK.
+  destruct (compile_rec_shape o p _ _ _ _ _ HR) as (crm & rest & Ecrs & Em & Frest). cbn [app] in Ecrs.
+  destruct (assign_slots_inv p crs crs' locals asg HA) as (_ & _ & _ & Ecrs').
+  pose proof (flat_inv crs' frs HF) as F2.
+  set (look := look_of asg) in *.
+  (* a compiled routine of the list gives a correct unit (for the identity transformer) *)
+  assert (UC : forall cr sub ast0, In cr crs -> compile_one o sub ast0 = COk cr ->
+            (match sub with Some r => r_deferred r | None => None end) = None ->
+            head_loop (root_ast ast0) = false ->
+            forall fr, flat_rel (rw_routine look cr) fr ->
+            unit_correct o cx look msel (fs_subs frs2) idW sub ast0 (fr_ops fr)).
+  { intros cr sub ast0 Hin Ec Dd Hh fr (Es & order & Hs & Hf) orc fuel stk st h Hh'.
+    destruct (routine_end_to_end_assigned o sub ast0 cr p crs crs' locals asg Dd Ec Hh Hin HA HV) as [_ T].
+    destruct (T order (fr_ops fr) Hs Hf) as (_ & _ & T').
+    exact (proj1 (T' (envk o cx look msel (fs_subs frs2) sub orc) (envk_consistent o cx look msel (fs_subs frs2) sub orc)
+                     fuel stk st h Hh')). }
+  (* the component list before the pass: main first, then subroutines *)
+  assert (Efrs : exists mainfr restf, frs = mainfr :: restf /\ flat_rel (rw_routine look crm) mainfr /\
+                   Forall2 flat_rel (map (rw_routine look) rest) restf).
+  { rewrite Ecrs', Ecrs in F2. cbn [map] in F2. inversion F2 as [|? mainfr ? restf R1 R2]; subst.
+    exists mainfr, restf. auto. }
+  destruct Efrs as (mainfr & restf & Efrs & Rm & Rr).
+  assert (Sm : fr_sub mainfr = None).
+  { destruct Rm as [E _]. rewrite E. destruct (rw_routine_fields look crm) as (-> & _). exact (compile_one_sub _ _ _ _ Em). }
+  (* every subroutine component comes from a declaration body *)
+  assert (Orig : forall fr, In fr restf -> exists r, fr_sub fr = Some r /\ In r (p_subs p) /\
+                   unit_correct o cx look msel (fs_subs frs2) idW (Some r) (decl_body o r) (fr_ops fr)).
+  { intros fr Hin. destruct (Forall2_in_l _ _ _ _ Rr Hin) as (c' & Hc' & Rc).
+    apply in_map_iff in Hc'. destruct Hc' as (c & <- & Hc). rewrite Forall_forall in Frest.
+    destruct (Frest c Hc) as (r & Er & Hr & Ec). exists r.
+    split; [destruct Rc as [E _]; rewrite E; destruct (rw_routine_fields look c) as (-> & _); exact Er|].
+    split; [exact Hr|].
+    apply (UC c (Some r) (decl_body o r)); [rewrite Ecrs; right; exact Hc|exact Ec|exact (HD r Hr)|
+                                            apply decl_body_root_head_loop|exact Rc]. }
+  (* after the pass *)
+  rewrite Efrs in HU. destruct (Forall2_head _ _ _ _ HU) as (mainfr2 & restf2 & Efrs2 & (Sm2 & Lm) & HU').
+  rewrite Sm in Sm2, Lm.
+  assert (Sr2 : Forall (fun fr => fr_sub fr <> None) restf2).
+  { apply Forall_forall. intros fr2 Hfr2. destruct (Forall2_in_r _ _ _ _ HU' Hfr2) as (fr & Hfr & (E & _)).
+    destruct (Orig fr Hfr) as (r & Er & _). rewrite E, Er. discriminate. }
+  assert (Hsubs : forall f r, find_routine (fs_subs frs2) f = Some r ->
+            r_id r = f /\ unit_placed o cx look msel (fs_subs frs2) W L (fs_res frs2) r).
+  { intros f r Fr. destruct (flatten_layout_sub frs2 f r Fr) as (Eid & fr2 & e & Hin & Es & Er & Ne & Pl).
+    split; [exact Eid|]. subst f.
+    exists (fs_label frs2 r), e, (Some (r_name r)), (fs_label frs2 r ++ "_")%string, (fr_ops fr2).
+    split; [exact Er|]. split; [exact Ne|]. split; [exact Pl|]. split.
+    { rewrite forallb_forall in LK. exact (LK fr2 Hin). }
+    rewrite Efrs2 in Hin. destruct Hin as [<-|Hin]; [rewrite Sm2 in Es; discriminate Es|].
+    destruct (Forall2_in_r _ _ _ _ HU' Hin) as (fr & Hfr & (E & Lf)).
+    destruct (Orig fr Hfr) as (r' & Er' & _ & UCr).
+    assert (r' = r) by (rewrite E, Er' in Es; injection Es as <-; reflexivity). subst r'.
+    rewrite Er' in Lf. exact (Lf _ UCr). }
+  split.
+  - intros n. exact (linked_calls_realized o cx look msel (fs_subs frs2) W L (fs_res frs2) ND Hsubs n).
+  - intros n fuel stk st h Hh Cl.
+    refine (linked_routine_correct o cx look msel (fs_subs frs2) W L (fs_res frs2) ND Hsubs None (p_main p) 0 "main_" (fr_ops mainfr2)
+              _ _ _ n fuel [] stk st h Hh Cl).
+    + exact (flatten_layout_main frs2 mainfr2 restf2 Efrs2 Sm2 Sr2).
+    + rewrite forallb_forall in LK. apply LK. rewrite Efrs2. left. reflexivity.
+    + apply Lm. apply (UC crm None (p_main p)); [rewrite Ecrs; left; reflexivity|exact Em|reflexivity|exact HL|exact Rm].
+Qed.
+
+(* ---- programs the spill pass leaves alone (in particular: acyclic call graphs) ---- *)
 Theorem program_linked_correct o modes p comps :
   compile_components o modes p = COk comps -> o_opt_slots o = false ->
   head_loop (root_ast (p_main p)) = false ->
@@ -155,10 +252,10 @@ Theorem program_linked_correct o modes p comps :
      forall cx msel,
        (* every call, to every depth, is realized by the linked program ... *)
        (forall n, realizes (lenv cx (look_of asg) msel (fs_subs frs)) L (fs_res frs)
-                           (call_k o cx (look_of asg) msel (fs_subs frs) n)) /\
+                           (call_k o cx (look_of asg) msel (fs_subs frs) idW n)) /\
        (* ... and the linked program computes the source semantics of the main routine *)
        (forall n fuel stk st h,
-          halt_of (denote_k o cx (look_of asg) msel (fs_subs frs) n None fuel (root_ast (p_main p)) stk st) = Some h ->
+          halt_of (denote_k o cx (look_of asg) msel (fs_subs frs) idW n None fuel (root_ast (p_main p)) stk st) = Some h ->
           claimed h ->
           pstar (lenv cx (look_of asg) msel (fs_subs frs)) L (PAt [] 0 stk st) (emb 0 [] h))).
 Proof.
@@ -166,58 +263,74 @@ Proof.
   destruct (compile_components_stages o modes p comps H Ho) as (crs & crs' & locals & asg & frs & frs2 & HR & HA & HF & HS & HC).
   exists crs, crs', locals, asg, frs, frs2. repeat (split; [assumption|]).
   intros HV E2 L ND LK cx msel. subst frs2.
-  destruct (compile_rec_shape o p _ _ _ _ _ HR) as (crm & rest & Ecrs & Em & Frest). cbn [app] in Ecrs.
-  destruct (assign_slots_inv p crs crs' locals asg HA) as (_ & _ & _ & Ecrs').
-  pose proof (flat_inv crs' frs HF) as F2.
-  set (look := look_of asg) in *.
-  (* a compiled routine of the list gives a correct unit *)
-  assert (UC : forall cr sub ast0, In cr crs -> compile_one o sub ast0 = COk cr ->
-            (match sub with Some r => r_deferred r | None => None end) = None ->
-            head_loop (root_ast ast0) = false ->
-            forall fr, flat_rel (rw_routine look cr) fr ->
-            unit_correct o cx look msel (fs_subs frs) sub ast0 (fr_ops fr)).
-  { intros cr sub ast0 Hin Ec Dd Hh fr (Es & order & Hs & Hf) orc fuel stk st h Hh'.
-    destruct (routine_end_to_end_assigned o sub ast0 cr p crs crs' locals asg Dd Ec Hh Hin HA HV) as [_ T].
-    destruct (T order (fr_ops fr) Hs Hf) as (_ & _ & T').
-    exact (proj1 (T' (envk o cx look msel (fs_subs frs) sub orc) (envk_consistent o cx look msel (fs_subs frs) sub orc)
-                     fuel stk st h Hh')). }
-  (* the component list: main first, then subroutines *)
-  assert (Efrs : exists mainfr restf, frs = mainfr :: restf /\ flat_rel (rw_routine look crm) mainfr /\
-                   Forall2 flat_rel (map (rw_routine look) rest) restf).
-  { rewrite Ecrs', Ecrs in F2. cbn [map] in F2. inversion F2 as [|? mainfr ? restf R1 R2]; subst.
-    exists mainfr, restf. auto. }
-  destruct Efrs as (mainfr & restf & Efrs & Rm & Rr).
-  assert (Sm : fr_sub mainfr = None).
-  { destruct Rm as [E _]. rewrite E. destruct (rw_routine_fields look crm) as (-> & _). exact (compile_one_sub _ _ _ _ Em). }
-  assert (Sr : Forall (fun fr => fr_sub fr <> None) restf).
-  { apply Forall_forall. intros fr Hfr. destruct (Forall2_in_l _ _ _ _ Rr Hfr) as (c' & Hc' & (E & _)).
-    apply in_map_iff in Hc'. destruct Hc' as (c & <- & Hc). rewrite Forall_forall in Frest.
-    destruct (Frest c Hc) as (r & Er & _). rewrite E. destruct (rw_routine_fields look c) as (-> & _). rewrite Er. discriminate. }
-  (* every compiled subroutine is placed behind its label and is a correct unit *)
-  assert (Hsubs : forall f r, find_routine (fs_subs frs) f = Some r ->
-            r_id r = f /\ unit_placed o cx look msel (fs_subs frs) L (fs_res frs) r).
-  { intros f r Fr. destruct (flatten_layout_sub frs f r Fr) as (Eid & fr & e & Hin & Es & Er & Ne & Pl).
-    split; [exact Eid|]. subst f.
-    exists (fs_label frs r), e, (Some (r_name r)), (fs_label frs r ++ "_")%string, (fr_ops fr).
-    split; [exact Er|]. split; [exact Ne|]. split; [exact Pl|]. split.
-    { rewrite forallb_forall in LK. exact (LK fr Hin). }
-    (* which compiled routine does fr come from? *)
-    rewrite Efrs in Hin. destruct Hin as [<-|Hin]; [rewrite Sm in Es; discriminate Es|].
-    destruct (Forall2_in_l _ _ _ _ Rr Hin) as (c' & Hc' & Rc).
-    apply in_map_iff in Hc'. destruct Hc' as (c & <- & Hc). rewrite Forall_forall in Frest.
-    destruct (Frest c Hc) as (r' & Er' & Hr' & Ec).
-    assert (r' = r).
-    { destruct Rc as [E _]. rewrite Es in E. destruct (rw_routine_fields look c) as (Q & _). rewrite Q, Er' in E.
-      injection E as <-. reflexivity. }
-    subst r'.
-    apply (UC c (Some r) (decl_body o r)); [rewrite Ecrs; right; exact Hc|exact Ec|exact (HD r Hr')|
-                                            apply decl_body_root_head_loop|exact Rc]. }
-  split.
-  - intros n. exact (linked_calls_realized o cx look msel (fs_subs frs) L (fs_res frs) ND Hsubs n).
-  - intros n fuel stk st h Hh Cl.
-    refine (linked_routine_correct o cx look msel (fs_subs frs) L (fs_res frs) ND Hsubs None (p_main p) 0 "main_" (fr_ops mainfr)
-              _ _ _ n fuel [] stk st h Hh Cl).
-    + exact (flatten_layout_main frs mainfr restf Efrs Sm Sr).
-    + rewrite forallb_forall in LK. apply LK. rewrite Efrs. left. reflexivity.
-    + apply (UC crm None (p_main p)); [rewrite Ecrs; left; reflexivity|exact Em|reflexivity|exact HL|exact Rm].
+  apply (program_core o p crs crs' locals asg frs frs idW cx msel HR HA HF HL HD HV); [|exact ND|exact LK].
+  generalize (fs_subs frs). intros S0. clear.
+  induction frs as [|fr t IH]; constructor; [|exact IH]. split; [reflexivity|]. intros ast0 U. exact U.
+Qed.
+
+(* ---- the general statement: whatever the spill pass does ---- *)
+Lemma fs_subs_map_sub (g : flat_routine -> flat_routine) frs :
+  (forall fr, fr_sub (g fr) = fr_sub fr) -> fs_subs (map g frs) = fs_subs frs.
+Proof.
+  intros H. unfold fs_subs. induction frs as [|fr t IH]; [reflexivity|]. cbn [map flat_map]. rewrite H, IH. reflexivity.
+Qed.
+
+Lemma stmt_in_sp_stmt version p re slots c : In c (sp_stmt version p re slots c).
+Proof.
+  unfold sp_stmt. destruct (filter _ _); [left; reflexivity|]. rewrite spill_one_split.
+  apply in_or_app. right. left. reflexivity.
+Qed.
+
+Lemma in_sp_fr_ops version p frs locals fr c : In c (fr_ops fr) -> In c (fr_ops (sp_fr version p frs locals fr)).
+Proof.
+  intros H. unfold sp_fr. destruct (fr_sub fr) as [r|]; [|exact H]. destruct (sp_active frs locals r); [|exact H].
+  cbn [fr_ops]. apply in_flat_map. exists c. split; [exact H|apply stmt_in_sp_stmt].
+Qed.
+
+Theorem program_linked_correct_spill o modes p comps :
+  compile_components o modes p = COk comps -> o_opt_slots o = false ->
+  head_loop (root_ast (p_main p)) = false ->
+  (forall r, In r (p_subs p) -> r_deferred r = None) ->
+  exists crs crs' locals asg frs frs2,
+    compile_rec (S (List.length (p_subs p))) o p None (p_main p) [] = COk crs /\
+    assign_slots p crs = COk (crs', locals, asg) /\
+    fold_right flat_step (COk []) crs' = COk frs /\
+    spill (o_version o) p frs locals = COk frs2 /\
+    comps = CPragma (o_version o) :: flatten_subroutines frs2 /\
+    (requested_valid p (all_slots crs) ->
+     let L := flatten_subroutines frs2 in
+     NoDup (labels_of L) ->
+     forallb (fun fr => linkable (fr_ops fr)) frs2 = true ->
+     forall cx msel,
+       let W := W_spill o cx (look_of asg) msel (fs_subs frs2) (o_version o) p frs locals in
+       (forall n, realizes (lenv cx (look_of asg) msel (fs_subs frs2)) L (fs_res frs2)
+                           (call_k o cx (look_of asg) msel (fs_subs frs2) W n)) /\
+       (forall n fuel stk st h,
+          halt_of (denote_k o cx (look_of asg) msel (fs_subs frs2) W n None fuel (root_ast (p_main p)) stk st) = Some h ->
+          claimed h ->
+          pstar (lenv cx (look_of asg) msel (fs_subs frs2)) L (PAt [] 0 stk st) (emb 0 [] h))).
+Proof.
+  intros H Ho HL HD.
+  destruct (compile_components_stages o modes p comps H Ho) as (crs & crs' & locals & asg & frs & frs2 & HR & HA & HF & HS & HC).
+  exists crs, crs', locals, asg, frs, frs2. repeat (split; [assumption|]).
+  intros HV L ND LK cx msel W.
+  pose proof (spill_inv (o_version o) p frs locals frs2 HS) as E2.
+  apply (program_core o p crs crs' locals asg frs frs2 W cx msel HR HA HF HL HD HV); [|exact ND|exact LK].
+  subst frs2. rewrite forallb_forall in LK.
+  assert (G : forall l, (forall fr, In fr l -> In fr frs) ->
+            Forall2 (unit_lift o cx (look_of asg) msel (fs_subs (map (sp_fr (o_version o) p frs locals) frs)) W) l
+                    (map (sp_fr (o_version o) p frs locals) l)).
+  { induction l as [|fr t IH]; intros Hl; cbn [map]; constructor.
+    - split; [apply sp_fr_sub|]. intros ast0 U.
+      destruct fr as [[r|] code]; cbn [fr_sub fr_ops] in *.
+      + apply spill_unit; [|exact U].
+        intros i Hi.
+        assert (Hin : In (sp_fr (o_version o) p frs locals (mkFR (Some r) code)) (map (sp_fr (o_version o) p frs locals) frs)).
+        { apply in_map. apply Hl. left. reflexivity. }
+        pose proof (LK _ Hin) as Lc. unfold linkable in Lc. rewrite forallb_forall in Lc.
+        specialize (Lc (COp i) (in_sp_fr_ops _ _ _ _ (mkFR (Some r) code) _ Hi)). cbn in Lc.
+        apply andb_prop in Lc. exact (proj1 Lc).
+      + exact U.
+    - apply IH. intros fr' H'. apply Hl. right. exact H'. }
+  exact (G frs (fun _ H => H)).
 Qed.
